@@ -35,23 +35,46 @@ def run(res, facts, tier):
                   'decided by interpreting the function over the finite domain of step kind x node test x name shape x step count x predicate', floor=100)
     a = facts.asts('XPath::getTargetData')[0]
     # the block executed for the last step: if (nextOp == eENDOP) { ... }
-    block = None
-    for x in walk(a['body']):
-        if x['k'] == 'If':
-            c = strip_casts(x['cond'])
-            if c.get('k') == 'Bin' and c['op'] == '==' and 'nextOp' in pp(c) and 'eENDOP' in pp(c):
-                block = x['then']
-    if block is None:
-        raise AnalysisBroken('getTargetData: last-step block (nextOp == eENDOP) not found')
-    op = {n.split('::')[-1]: v for n, v in facts.enumconst.items() if '::XPathExpression::e' in n}
-    ids = {}
+    # the locals by what they are, not by what they are called:  nextOp == eENDOP  <-  nextOp = getOpCodeMapValue(nextStepPos)  <-  nextStepPos = getNextOpCodePosition(opPos);
+    # stepCount is the counter incremented in the loop around that test
+    decl = {}
     for x in walk(a['body']):
         if x['k'] == 'Decl':
             for v in x['vars']:
-                ids[v['n']] = v['id']
+                decl[v['id']] = v
+    block = None
+    ids = {}
+
+    def ref_local(e):
+        e = strip_casts(e)
+        return e if e is not None and e.get('k') == 'Ref' and e.get('d') == 'local' and e.get('id') in decl else None
+    for x in walk(a['body']):
+        if x['k'] == 'If':
+            c = strip_casts(x['cond'])
+            if c.get('k') == 'Bin' and c['op'] == '==':
+                for u, v in ((c['lhs'], c['rhs']), (c['rhs'], c['lhs'])):
+                    if ref_local(u) is not None and pp(strip_casts(v)).endswith('eENDOP'):
+                        ini = decl[ref_local(u)['id']].get('init')
+                        cs = [cc for cc in calls(ini)] if ini is not None else []
+                        if cs and (cs[0].get('n') or '') == 'getOpCodeMapValue' and ref_local(cs[0]['args'][0]) is not None:
+                            nsp = ref_local(cs[0]['args'][0])['id']
+                            ini2 = decl[nsp].get('init')
+                            cs2 = [cc for cc in calls(ini2)] if ini2 is not None else []
+                            if cs2 and (cs2[0].get('n') or '') == 'getNextOpCodePosition' and ref_local(cs2[0]['args'][0]) is not None:
+                                block = x['then']
+                                ids['nextStepPos'] = nsp
+                                ids['opPos'] = ref_local(cs2[0]['args'][0])['id']
+    if block is None:
+        raise AnalysisBroken('getTargetData: last-step block (the operation after the step is eENDOP) not found')
+    for x in walk(a['body']):
+        if x['k'] in ('While', 'For', 'Do') and any(y is block for y in walk(x)):
+            for y in walk(x):
+                if y.get('k') == 'Un' and y.get('op') == '++' and ref_local(y['e']) is not None and not any(z is y for z in walk(block)):
+                    ids.setdefault('stepCount', ref_local(y['e'])['id'])
+    op = {n.split('::')[-1]: v for n, v in facts.enumconst.items() if '::XPathExpression::e' in n}
     for need in ('opPos', 'stepCount', 'nextStepPos'):
         if need not in ids:
-            raise AnalysisBroken('getTargetData: local %s not found' % need)
+            raise AnalysisBroken('getTargetData: the local that holds %s was not found' % need)
     steps = ['eMATCH_IMMEDIATE_ANCESTOR', 'eMATCH_ANY_ANCESTOR', 'eMATCH_ATTRIBUTE']
     tests = []
     for t in ('eNODETYPE_COMMENT', 'eNODETYPE_TEXT', 'eNODETYPE_NODE'):
